@@ -65,6 +65,9 @@ pub(crate) struct ThetaHashTable {
 
     entries: Vec<u64>,
     num_entries: usize,
+
+    // True until the first value is offered, whether or not that value is retained.
+    is_empty: bool,
 }
 
 impl ThetaHashTable {
@@ -90,6 +93,7 @@ impl ThetaHashTable {
             hash_seed,
             entries,
             num_entries: 0,
+            is_empty: true,
         }
     }
 
@@ -100,6 +104,8 @@ impl ThetaHashTable {
         let mut hasher = MurmurHash3X64128::with_seed(self.hash_seed);
         value.hash(&mut hasher);
         let (h1, _) = hasher.finish128();
+        // The sketch has seen data even if this value is screened out below.
+        self.is_empty = false;
         let hash = h1 >> 1; // To make it compatible with Java version
         if hash >= self.theta {
             return 0; // hash == 0 is reserved for empty slots
@@ -270,6 +276,7 @@ impl ThetaHashTable {
         self.num_entries = 0;
         self.theta = init_theta;
         self.lg_cur_size = init_lg_cur;
+        self.is_empty = true;
     }
 
     /// Get number of entries
@@ -284,7 +291,7 @@ impl ThetaHashTable {
 
     /// Check if empty
     pub fn is_empty(&self) -> bool {
-        self.num_entries == 0
+        self.is_empty
     }
 
     /// Get iterator over entries
